@@ -24,7 +24,8 @@
      object constructed but never acquired, in-place copy, fall-through to the network), kept
      as the record of the repaired defects.
    The boolean switches of [cfg] are anti-patterns that were never in /repo (all false for the
-   code as it is) and one proposed repair (parse_fallback, fix-F5, not in /repo).
+   code as it is before 8dfe516) and one repair switch (parse_fallback: true = the code as it is since fix commit
+   8dfe516, C19-F5; false = the behaviour before it).
    Models only -- proofs live in Proofs/CacheProofs.v. *)
 From Coq Require Import List Arith Bool PeanoNat.
 From HV Require Import Base.Res.
@@ -175,7 +176,7 @@ Record cfg := mkCfg {
                                    instead of the open file (flock): a second holder in the same process
                                    gets in, and its close drops the lock of the whole process *)
   ignore_future_stamp : bool;   (* a recorded time AHEAD of the caller's clock is treated as "no stamp" *)
-  (* REPAIR switch (proposed fix-F5, not in /repo): false = the code as it is *)
+  (* REPAIR switch: true = the code as it is (fix commit 8dfe516, C19-F5), false = before that commit *)
   parse_fallback : bool         (* a cache copy that does not parse falls back to the installed file *)
 }.
 
